@@ -285,6 +285,7 @@ class Impl:
         self.native_variant = native
         self.variants[native] = self.pl
         self.variant_errors = {}
+        self.capture_fresh()
 
     def variant(self, sysfs):
         if sysfs not in self.variants:
@@ -296,6 +297,105 @@ class Impl:
         self.ps.PROCFS_PATH = self.saved_procfs
         self.red.close()
         shutil.rmtree(self.proc, ignore_errors=True)
+
+    # ---- module state of a fresh interpreter (seeded round 5: histories around module globals)
+    _SCALARS = (type(None), bool, int, float, str, bytes)
+
+    def _state_modules(self):
+        mods = [self.ps, self.pl]
+        c = getattr(self.ps, "_common", None)
+        if c is not None:
+            mods.append(c)
+        return mods
+
+    def capture_fresh(self):
+        """the scalar module globals (None / bool / int / float / str / bytes) and the content of the plain list / dict / set
+        globals of psutil, psutil._pslinux and psutil._common as they are right after import — BOOT_TIME forced to its
+        import-time value None. `restore_fresh` puts them back (and removes scalar names that did not exist), so that every
+        history starts in a fresh interpreter's state WHATEVER globals a changed source keeps its memory in (no name is
+        special-cased). Not covered: state inside other objects (closures, instances)."""
+        self.fresh = {}
+        for m in self._state_modules():
+            for k, v in list(vars(m).items()):
+                if not k.startswith("__") and isinstance(v, self._SCALARS):
+                    self.fresh[(m, k)] = v
+        if hasattr(self.pl, "BOOT_TIME"):
+            self.fresh[(self.pl, "BOOT_TIME")] = None
+        # plain module-level containers (list / dict / set objects): their CONTENT at this point, put back in place
+        self.fresh_containers = []
+        for m in self._state_modules():
+            for k, v in list(vars(m).items()):
+                if not k.startswith("__") and type(v) in (list, dict, set):
+                    self.fresh_containers.append((m, k, v, type(v)(v)))
+
+    def restore_fresh(self):
+        for (m, k), v in self.fresh.items():
+            if vars(m).get(k, _MISSING) is not v:
+                setattr(m, k, v)
+        for m, k, obj, content in self.fresh_containers:
+            if obj != content:
+                obj.clear()
+                if isinstance(obj, list):
+                    obj.extend(content)
+                else:
+                    obj.update(content)
+            if vars(m).get(k, _MISSING) is not obj:
+                setattr(m, k, obj)
+        for m in self._state_modules():
+            for k, v in list(vars(m).items()):
+                if not k.startswith("__") and (m, k) not in self.fresh and isinstance(v, self._SCALARS):
+                    delattr(m, k)
+
+    def put_pid_stat(self, pid, start):
+        """<procfs>/<pid>/stat as the kernel prints it (fs/proc/array.c do_task_stat: 52 fields), field 22 = starttime"""
+        d = _real_os.path.join(self.proc, str(pid))
+        _real_os.makedirs(d, exist_ok=True)
+        fields = ["S", "1", str(pid), str(pid), "0", "-1", "4194304"] + ["0"] * 43
+        fields[19] = str(start)
+        with open(_real_os.path.join(d, "stat"), "wb") as f:
+            f.write(("%d (sleeper) %s\n" % (pid, " ".join(fields))).encode())
+        return d
+
+    def run_boothist(self, steps, unread="open_eacces"):
+        """a HISTORY of public calls in one interpreter whose module state is that of a fresh import at the start: each step
+        first installs the <procfs>/stat of its moment (the kernel's btime may have moved by any amount since the last
+        step), then makes ONE call: psutil.boot_time(), psutil.cpu_stats(), or create_time() of a process with the given
+        starttime — through a new `_pslinux.Process` (mode plat) or a new `psutil.Process` (mode front: the constructor
+        itself asks for the creation time). → one result per step + the module global at the end."""
+        self.red.clear()
+        self.red.unread_mode = unread
+        outs, dirs = [], []
+        self.restore_fresh()
+        g = None
+        with Patched(self.red, self.ps, [self.pl]):
+            try:
+                for i, st in enumerate(steps):
+                    self.put_proc("stat", st["stat"])
+                    call = st["call"]
+                    try:
+                        if call == "boot_time":
+                            outs.append({"kind": "ok", "value": self.ps.boot_time()})
+                        elif call == "cpu_stats":
+                            s = self.ps.cpu_stats()
+                            outs.append({"kind": "ok", "value": [s.ctx_switches, s.interrupts, s.soft_interrupts]})
+                        elif call == "create_time":
+                            pid = 4000 + i
+                            dirs.append(self.put_pid_stat(pid, st["start"]))
+                            if st.get("mode") == "front":
+                                v = self.ps.Process(pid).create_time()
+                            else:
+                                v = self.pl.Process(pid).create_time()
+                            outs.append({"kind": "ok", "value": v})
+                        else:
+                            raise ValueError(call)
+                    except Exception as e:  # noqa: BLE001
+                        outs.append(_exc(e))
+                g = getattr(self.pl, "BOOT_TIME", "<deleted>")
+            finally:
+                self.restore_fresh()
+                for d in dirs:
+                    shutil.rmtree(d, ignore_errors=True)
+        return {"outs": outs, "global": g, "ticks": self.pl.CLOCK_TICKS}
 
     # ---- procfs
     def put_proc(self, name, fs):
